@@ -2,3 +2,4 @@ pub mod drive;
 pub mod reverse;
 pub mod limits;
 pub mod reject;
+pub mod bitshare;
